@@ -31,6 +31,11 @@ type c15Case struct {
 	// Part > 0 (striped): the buffer is Alloc(C1, 0, 3) with Part samples appended one by one (fewer than
 	// one frame when Part < C1)
 	Part int `json:"part,omitempty"`
+	// PutVar (put): 1 = the buffer offered is the window Slice(1, K1) of a buffer of the pool's own shape
+	// (its capacity is one frame short); 2 = a buffer of the pool's own shape grown by Append beyond it
+	PutVar int `json:"put_var,omitempty"`
+	// RecvPart (conv/append): the receiver / destination ends in a partly filled frame (one more sample)
+	RecvPart bool `json:"recv_part,omitempty"`
 }
 
 // snapshot of a buffer: shape + every sample over its capacity
@@ -88,6 +93,9 @@ func c15RunRaw(cs c15Case) (fs []F) {
 		b := mk(d, cs.C2, 2, 3, 40)
 		if cs.EqLen {
 			a, b = mk(s, cs.C1, cs.C2, cs.C2+1, 1), mk(d, cs.C2, cs.C1, cs.C1+1, 40)
+		}
+		if cs.RecvPart {
+			b.AppendSample(dyn.Tok(d, 77))
 		}
 		sa, sb := takeSnap(a), takeSnap(b)
 		var p bool
@@ -231,6 +239,13 @@ func c15RunRaw(cs c15Case) (fs []F) {
 		pool.Put(g0)
 		free0 := ctl.AllFree()
 		bad := mk(s, cs.C2, cs.K2, cs.K2, 1)
+		switch cs.PutVar {
+		case 1:
+			bad = mk(s, cs.C1, cs.K1, cs.K1, 1).Slice(1, cs.K1)
+		case 2:
+			bad = mk(s, cs.C1, cs.K1, cs.K1, 1)
+			bad.Append(mk(s, cs.C1, 1, 1, 9))
+		}
 		sn := takeSnap(bad)
 		p, _ := dyn.Try(func() { pool.Put(bad) })
 		if !p {
@@ -275,6 +290,13 @@ func init() {
 							}
 						}
 					}
+					// the receiver / destination ends in a partly filled frame
+					for _, cc := range [][2]int{{1, 2}, {2, 3}, {3, 2}, {4, 3}} {
+						cases = append(cases, c15Case{Fn: "conv", S: tn(s), D: tn(d), C1: cc[0], C2: cc[1], RecvPart: true})
+						if s == d {
+							cases = append(cases, c15Case{Fn: "append", S: tn(s), D: tn(d), C1: cc[0], C2: cc[1], RecvPart: true})
+						}
+					}
 					// different channel counts, equal total lengths and capacities
 					for _, cc := range [][2]int{{2, 3}, {3, 2}, {1, 4}, {4, 1}, {2, 4}} {
 						cases = append(cases, c15Case{Fn: "conv", S: tn(s), D: tn(d), C1: cc[0], C2: cc[1], EqLen: true})
@@ -310,6 +332,11 @@ func init() {
 						if c1 != c2 {
 							cases = append(cases, c15Case{Fn: "append", S: tn(s), D: tn(s), C1: c1, C2: c2})
 						}
+					}
+				}
+				for c1 := 1; c1 <= 3; c1++ {
+					for k1 := 2; k1 <= 4; k1++ { // windows and grown versions of buffers of the pool's own shape
+						cases = append(cases, c15Case{Fn: "put", S: tn(s), D: tn(s), C1: c1, K1: k1, C2: c1, K2: k1 - 1, PutVar: 1}, c15Case{Fn: "put", S: tn(s), D: tn(s), C1: c1, K1: k1, C2: c1, K2: k1 + 1, PutVar: 2})
 					}
 				}
 				for c1 := 1; c1 <= 3; c1++ {
